@@ -13,7 +13,7 @@ Text fields are hex (`.` = empty), `-` is None.
   D:cfg:sec|-:allownew:k=v,k=v                         update_from_dict
   O:cfg:profile|-:allownew:opt,opt                     update_from_options
   S:cfg:fromcfg:fromsec:sec|-:allownew                 update_from_config_section
-  F:cfg:allownew:casesensitive:source:text             update_from_file (text of the file)
+  F:cfg:allownew:casesensitive:source:text             update_from_file (text of the file; DEFAULT, __replace__, __vars__ sections incl.)
   P:cfg:-|[]|p,p,~                                     profiles setter
   M:cfg:-|name                                         master_section setter
   L:0|1                                                fallback link 0 -> 1
@@ -149,9 +149,13 @@ def step (w : World) (op : String) : Option (World × String) :=
     pure (w.set i c', mutRes e)
   | ["F", c, an, cs, src, text] => do
     let i ← idx? c; let an ← bool? an; let cs ← bool? cs; let src ← unhx? src; let text ← unhx? text
-    match (w.get i).updateFromText text src an cs with
+    match (w.get i).updateFromFile text src an cs with
     | .error _ => pure (w, "err:ini")
-    | .ok (c', e) => pure (w.set i c', mutRes e)
+    | .ok (c', e) => pure (w.set i c', match e with
+        | none => "ok"
+        | some (.cfg e) => s!"err:{showErr e}"
+        | some (.replace .recursion) => "err:recursion"
+        | some (.replace .unsupportedSpec) => "unsupported-spec")
   | ["P", c, ps] => do
     let i ← idx? c
     let vals : Option (List Profile) ←
